@@ -113,12 +113,28 @@ type TB interface {
 
 type knownAbort struct{ sig string }
 
+var (
+	collectMu sync.Mutex
+	collected = map[string]bool{}
+)
+
 // Violation reports a violated clause. If its signature is a listed open finding the hit is
 // counted and the current case is abandoned (the surrounding Guard returns normally), so the
 // search goes on behind the finding; otherwise the case fails with a VIOLATION line.
 func Violation(t TB, c *stats.Collector, sig string, format string, args ...interface{}) {
 	if IsKnownOpen(c.Property, sig) {
 		c.KnownHit(sig)
+		panic(knownAbort{sig})
+	}
+	if os.Getenv("VERIF_COLLECT") == "1" {
+		// triage mode (never used by registered commands): collect every distinct signature
+		c.KnownHit("UNLISTED:" + sig)
+		collectMu.Lock()
+		if !collected[sig] {
+			collected[sig] = true
+			fmt.Printf("COLLECT %s :: %s\n", sig, fmt.Sprintf(format, args...))
+		}
+		collectMu.Unlock()
 		panic(knownAbort{sig})
 	}
 	t.Fatalf("VIOLATION-SIG %s :: %s", sig, fmt.Sprintf(format, args...))
